@@ -172,6 +172,11 @@ def cases(tier, seed):
         for radius in (0.4, 1.0, 2.0):
             for scale in (1.0, 0.5):
                 out.append({"family": "mask", "name": name, "param": radius, "scale": scale})
+    for scale in (1.0, 0.5, 0.8, 0.23):
+        for centre in ("none", "mean", "offset", "far"):
+            for wts in (False, True):
+                for lam in (2.0, 0.37):
+                    out.append({"family": "atoms", "scale": scale, "centre": centre, "weights": wts, "lam": lam})
     out.append({"family": "loader-dispatch"})
     return out
 
@@ -233,7 +238,7 @@ def _same(got, ref):
 def run_case(case):
     fam = case["family"]
     return {"programs": _programs, "associativity": _assoc, "curry": _curry, "covariance": _covariance, "rescale": _rescale,
-            "gaussian": _gaussian, "mask": _mask, "loader-dispatch": _dispatch}[fam](case)
+            "gaussian": _gaussian, "mask": _mask, "loader-dispatch": _dispatch, "atoms": _atoms}[fam](case)
 
 
 def _opclass(e):
@@ -492,6 +497,63 @@ def _gaussian(case):
     elif np.abs(model - g).max() > 1e-3 * g.max():
         viol.append((f"{ID}|from_gaussian|not-a-gaussian-of-requested-width|{iso}", f"deviates from exp(-|x-c|^2/2sigma^2) with sigma {np.round(sig_px, 3).tolist()} px by {np.abs(model - g).max() / g.max():.3g} of the peak"))
     return {"nontrivial": True, "outcome": "gaussian", "viol": viol}
+
+
+ATOMS = np.array([[0.13, 0.41, -0.27], [1.37, -0.92, 0.58], [-1.71, 0.66, 1.23], [0.84, 1.49, -1.36], [-0.52, -1.88, -0.74],
+                  [2.21, 0.35, 0.97], [-0.95, 1.02, 2.06]])
+
+
+def _atoms(case):
+    """from_atoms: a histogram of the atoms with voxel size `scale` whose centre is `center` (nm), or the atoms' mean"""
+    from acryo import pipe
+
+    scale, cname, lam = case["scale"], case["centre"], case["lam"]
+    atoms = ATOMS + np.array([3.1, -4.7, 12.9])  # a cloud away from the origin (as in a PDB file)
+    w = np.array([1.0, 2.0, 0.5, 1.5, 3.0, 1.0, 0.25]) if case["weights"] else None
+    mean = atoms.mean(axis=0)
+    centre = {"none": None, "mean": tuple(mean), "offset": tuple(mean + np.array([0.37, -0.61, 0.22])), "far": tuple(mean + np.array([-2.3, 1.9, 3.4]))}[cname]
+    viol = []
+    sig = lambda what: f"{ID}|from_atoms|{what}|centre={cname if cname in ('none', 'mean') else 'explicit'}"  # noqa
+
+    def call(atoms_, centre_, scale_):
+        kw = {}
+        if centre_ is not None:
+            kw["center"] = centre_
+        if w is not None:
+            kw["weights"] = w
+        return np.asarray(pipe.from_atoms(atoms_, **kw)(scale_), dtype=np.float64)
+
+    img = call(atoms, centre, scale)
+    c = mean if centre is None else np.asarray(centre)
+    px = (atoms - c) / scale
+    rmax = np.sqrt((px ** 2).sum(1)).max()
+    if img.ndim != 3 or len(set(img.shape)) != 1:
+        viol.append((sig("shape"), f"shape {img.shape}"))
+        return {"nontrivial": True, "outcome": "atoms", "viol": viol}
+    size = img.shape[0]
+    if not (2 * rmax - 1e-9 <= size <= 2 * rmax + 2):
+        viol.append((sig("box-size"), f"image side {size} px for atoms within {rmax:.2f} px of the centre (scale {scale}): the box must hold the furthest atom and not more than a voxel of margin"))
+    tot = float(np.sum(w)) if w is not None else float(len(atoms))
+    if abs(img.sum() - tot) > 1e-6:
+        viol.append((sig("atoms-lost"), f"image sums to {img.sum():.3f}, atoms weigh {tot} (scale {scale}, side {size})"))
+    else:
+        exp = np.zeros_like(img)
+        fr = px + size / 2.0
+        if np.abs(fr - np.round(fr)).min() > 1e-6:  # no atom on a voxel face
+            for i, f in enumerate(np.floor(fr).astype(int)):
+                if np.all((f >= 0) & (f < size)):
+                    exp[tuple(f)] += 1.0 if w is None else w[i]
+            if np.abs(exp - img).max() > 1e-9:
+                bad = np.argwhere(np.abs(exp - img) > 1e-9)[0]
+                viol.append((sig("voxel-of-atom"), f"voxel {bad.tolist()} holds {img[tuple(bad)]} instead of {exp[tuple(bad)]}: atoms are not binned at (atom - centre)/scale around the box centre (scale {scale}, centre {cname})"))
+    if cname == "mean":
+        ref = call(atoms, None, scale)
+        if ref.shape != img.shape or np.abs(ref - img).max() > 1e-9:
+            viol.append((sig("mean-centre-vs-default"), f"center=mean(atoms) gives shape {img.shape}, the default gives {ref.shape}"))
+    b = call(atoms * lam, None if centre is None else tuple(np.asarray(centre) * lam), scale * lam)
+    if b.shape != img.shape or np.abs(b - img).max() > 1e-9:
+        viol.append((sig("scale-covariance"), f"atoms, centre and scale multiplied by {lam}: shape {img.shape} -> {b.shape}"))
+    return {"nontrivial": True, "outcome": f"atoms|{cname}|{'viol' if viol else 'ok'}", "viol": viol}
 
 
 def _mask(case):
